@@ -787,3 +787,57 @@ func throughCache(p *Program, v ssa.Value) bool {
 	}
 	return walk(v)
 }
+
+// ---------------------------------------------------------------------------
+// R-RENDER-CACHE-FREE (C17): what a template renders is fixed when it is loaded (its parent is
+// resolved then).  The rendering proper — every function that works on an already looked-up
+// *Template together with the data — must not consult the engine's template cache again: a lookup by
+// name at render time makes the output depend on what was loaded, reloaded or removed in between.
+// ---------------------------------------------------------------------------
+
+func ruleRenderCacheFree(r *Run) {
+	p := r.P
+	var roots []*ssa.Function
+	for _, fn := range p.ModFuncs() {
+		if fn.Pkg == nil || fn.Pkg.Pkg.Path() != pkgDoc || fn.Parent() != nil {
+			continue
+		}
+		hasT, hasD := false, false
+		for _, par := range fn.Params {
+			if typeIs(par.Type(), pkgDoc, "Template") {
+				hasT = true
+			}
+			if typeIs(par.Type(), pkgDoc, "TemplateData") {
+				hasD = true
+			}
+		}
+		if hasT && hasD {
+			roots = append(roots, fn)
+		}
+	}
+	r.Min("render_functions_taking_template_and_data", len(roots), 1)
+	if len(roots) == 0 {
+		return
+	}
+	reach := p.staticReach(roots...)
+	bad := ""
+	var badPos token.Pos
+	for _, fn := range sortedFuncs(reach) {
+		allInstrs(fn, func(in ssa.Instruction) {
+			fa, ok := in.(*ssa.FieldAddr)
+			if !ok || bad != "" {
+				return
+			}
+			if fv, _ := fieldOfAddr(fa); fieldIs(p, fv, pkgDoc, "TemplateEngine", "cache") {
+				bad = shortName(fn) + " reads the template cache (" + p.pos(fa.Pos()) + ")"
+				badPos = fa.Pos()
+			}
+		})
+	}
+	pos := roots[0].Pos()
+	if bad != "" {
+		pos = badPos
+	}
+	r.Check("render-cache-free", shortName(roots[0]), pos, bad == "",
+		fmt.Sprintf("rendering an already loaded template must not look templates up by name again: %s", map[bool]string{true: "no cache access is reachable from the rendering functions", false: bad + ", reachable from " + shortName(roots[0]) + " — the result then depends on which templates were loaded, reloaded or removed since this one was loaded"}[bad == ""]))
+}
